@@ -156,6 +156,7 @@ pub fn generic_probe_program(names: &[&str]) -> Program {
             methods,
             entry_points: true,
             query_err_param: None,
+            lifetime: false,
         },
         interfaces: vec![Interface {
             module: "if_a".into(),
@@ -163,6 +164,7 @@ pub fn generic_probe_program(names: &[&str]) -> Program {
             explicit_as: false,
             assoc: vec![],
             assoc_names: vec![],
+            alias: None,
             style: CustomStyle::Plain,
             methods: vec![method("ping", Kind::Exec, vec![arg("n", Ty::U32)]), method("peek", Kind::Query, vec![])],
             msg_attrs: vec![],
@@ -202,6 +204,7 @@ pub fn c19b_probes(ctx: &Ctx) -> Vec<Probe> {
             explicit_as: false,
             assoc: vec![Ty::Rec],
             assoc_names: vec![n.clone()],
+            alias: None,
             style: CustomStyle::Plain,
             methods: vec![
                 method("ping", Kind::Exec, vec![arg("n", Ty::Assoc(0))]),
@@ -593,6 +596,7 @@ fn simple_program() -> Program {
             methods: vec![method("inst", Kind::Instantiate, vec![]), method("run", Kind::Exec, vec![arg("x", Ty::U32)])],
             entry_points: true,
             query_err_param: None,
+            lifetime: false,
         },
         interfaces: vec![],
     }
@@ -758,6 +762,7 @@ pub fn c16_probes() -> Vec<Probe> {
             explicit_as: false,
             assoc: vec![Ty::Rec],
             assoc_names: vec![],
+            alias: None,
             style: CustomStyle::Plain,
             methods: vec![q],
             msg_attrs: vec![],
